@@ -297,7 +297,15 @@ where
     }
 
     pub fn entry(&'_ mut self, key: Handle) -> Entry<'_, T> {
-        let ind = self.find_ind(key);
+        let mut ind = self.find_ind(key);
+        unsafe {
+            if *self.handles.as_ptr().add(ind) != key && self.needs_grow(self.count + 1) {
+                // a vacant entry is going to be filled: keep the load below MAX_LOAD, just like
+                // `insert` does, otherwise the table fills up and probing never stops
+                self.grow().expect("Failed to grow the table");
+                ind = self.find_ind(key);
+            }
+        }
 
         let pl = unsafe {
             if *self.handles.as_ptr().add(ind) != key {
@@ -471,6 +479,11 @@ where
     }
 
     #[inline]
+    fn needs_grow(&self, count: usize) -> bool {
+        count as f32 > self.capacity as f32 * MAX_LOAD
+    }
+
+    #[inline]
     fn grow(&mut self) -> Result<(), MapError> {
         let new_cap = (self.capacity.max(2) * 3) / 2;
         debug_assert!(new_cap > self.capacity);
@@ -482,7 +495,7 @@ where
         if key.0 == 0 {
             return Err(MapError::InvalidHandle);
         }
-        if (self.count + 1) as f32 > self.capacity as f32 * MAX_LOAD {
+        if self.needs_grow(self.count + 1) {
             self.grow()?;
         }
         Ok(self._insert(key, value))
